@@ -120,7 +120,12 @@ func NewToUnicodeFile(csr charcode.CodeSpaceRange, data map[charcode.Code]string
 }
 
 func (tu *ToUnicodeFile) GetMapping() (map[charcode.Code]string, error) {
-	codec, err := charcode.NewCodec(tu.CodeSpaceRange)
+	// like File.Codec, use the code space of the whole usecmap chain
+	var cs charcode.CodeSpaceRange
+	for g := tu; g != nil; g = g.Parent {
+		cs = append(cs, g.CodeSpaceRange...)
+	}
+	codec, err := charcode.NewCodec(cs)
 	if err != nil {
 		return nil, err
 	}
